@@ -56,6 +56,8 @@ func (o FsOp) String() string {
 		return fmt.Sprintf("List(%s)", o.D)
 	case "bulk":
 		return fmt.Sprintf("bulk %d x AtomicCreate(%s, f###)", o.Len, o.D)
+	case "mkdir":
+		return fmt.Sprintf("Mkdir(%s)", o.D)
 	}
 	return o.K
 }
@@ -437,7 +439,9 @@ func runFsSeq(p *FsPlan, system string, keepLog bool) fsSeqResult {
 	if keepLog {
 		res.log = append(res.log, r.Log...)
 	}
-	if r.Outcome != simrt.Completed && res.violation == nil {
+	if r.Outcome == simrt.Deadlock && res.violation == nil {
+		res.violation = &harness.Violation{Oracle: "fs.seq.deadlock", Key: "fs.seq.deadlock", Msg: fmt.Sprintf("[%s] an API call never returns: %s", system, r.Detail)}
+	} else if r.Outcome != simrt.Completed && res.violation == nil {
 		res.log = append(res.log, "outcome: "+r.Outcome.String()+" "+r.Detail)
 	}
 	for k, v := range s.Probes {
